@@ -377,4 +377,211 @@ def unmarshalTimestamp (s : Str) : Option (Int × Int) :=
   else if tooManyFracDigits s then none
   else some (secs, (nsec : Int))
 
+/-! ## FieldMask
+
+Private copies of `strs.JSONCamelCase`, `strs.JSONSnakeCase` (internal/strs/strings.go) and
+`protoreflect.FullName.IsValid` (reflect/protoreflect/proto.go).  The Go functions work on bytes; a
+non-ASCII character passes through the two converters unchanged (none of its bytes is '_' or an ASCII
+letter) and makes `IsValid` false, exactly as here. -/
+
+def isLower (c : Char) : Bool := 97 ≤ c.toNat && c.toNat ≤ 122
+def isUpper (c : Char) : Bool := 65 ≤ c.toNat && c.toNat ≤ 90
+def toUpper (c : Char) : Char := Char.ofNat (c.toNat - 32)   -- `c -= 'a' - 'A'`
+def toLower (c : Char) : Char := Char.ofNat (c.toNat + 32)   -- `c += 'a' - 'A'`
+
+/-- `strs.JSONCamelCase`; the flag is `wasUnderscore` -/
+def jsonCamelCaseAux : Bool → Str → Str
+  | _, [] => []
+  | was, c :: t =>
+    if c = '_' then jsonCamelCaseAux true t
+    else (if was ∧ isLower c then toUpper c else c) :: jsonCamelCaseAux false t
+
+def jsonCamelCase (s : Str) : Str := jsonCamelCaseAux false s
+
+/-- `strs.JSONSnakeCase` -/
+def jsonSnakeCase : Str → Str
+  | [] => []
+  | c :: t => if isUpper c then '_' :: toLower c :: jsonSnakeCase t else c :: jsonSnakeCase t
+
+def isLetter (c : Char) : Bool := c.toNat = 95 || isLower c || isUpper c
+def isLetterDigit (c : Char) : Bool := isLetter c || isDigit c
+
+/-- `FullName.IsValid`: identifiers separated by single dots.  `start` = an identifier must begin here
+(`consumeIdent` is about to be called); otherwise we are inside an identifier. -/
+def fullNameValidAux : Bool → Str → Bool
+  | start, [] => !start
+  | true, c :: t => isLetter c && fullNameValidAux false t
+  | false, c :: t => if c = '.' then fullNameValidAux true t else isLetterDigit c && fullNameValidAux false t
+
+def fullNameValid (s : Str) : Bool := fullNameValidAux true s
+
+/-- `unicode.IsSpace` (what `strings.TrimSpace` removes) -/
+def isSpace (c : Char) : Bool :=
+  (9 ≤ c.toNat && c.toNat ≤ 13) || c.toNat = 32 || c.toNat = 0x85 || c.toNat = 0xA0 || c.toNat = 0x1680 ||
+  (0x2000 ≤ c.toNat && c.toNat ≤ 0x200A) || c.toNat = 0x2028 || c.toNat = 0x2029 || c.toNat = 0x202F ||
+  c.toNat = 0x205F || c.toNat = 0x3000
+
+def trimSpace (s : Str) : Str := ((s.dropWhile isSpace).reverse.dropWhile isSpace).reverse
+
+def consHead (c : Char) : List Str → List Str
+  | [] => [[c]]
+  | h :: r => (c :: h) :: r
+
+/-- `strings.Split(s, ",")` -/
+def splitComma : Str → List Str
+  | [] => [[]]
+  | c :: t => if c = ',' then [] :: splitComma t else consHead c (splitComma t)
+
+/-- `strings.Join(paths, ",")` -/
+def joinComma : List Str → Str
+  | [] => []
+  | [x] => x
+  | x :: y :: r => x ++ ',' :: joinComma (y :: r)
+
+/-- the loop of `marshalFieldMask`: camel-cased paths, or `none` at the first invalid / irreversible path -/
+def fmMarshalPaths : List Str → Option (List Str)
+  | [] => some []
+  | s :: r =>
+    if ¬ fullNameValid s then none
+    else if s ≠ jsonSnakeCase (jsonCamelCase s) then none
+    else (fmMarshalPaths r).map (jsonCamelCase s :: ·)
+
+/-- `marshalFieldMask`: `none` = error, else the text of the JSON string -/
+def marshalFieldMask (paths : List Str) : Option Str := (fmMarshalPaths paths).map joinComma
+
+/-- the loop of `unmarshalFieldMask` -/
+def fmUnmarshalPaths : List Str → Option (List Str)
+  | [] => some []
+  | s0 :: r =>
+    if '_' ∈ s0 ∨ ¬ fullNameValid (jsonSnakeCase s0) then none
+    else (fmUnmarshalPaths r).map (jsonSnakeCase s0 :: ·)
+
+/-- `unmarshalFieldMask` on the parsed JSON string: `none` = error, else the paths -/
+def unmarshalFieldMask (str : Str) : Option (List Str) :=
+  if trimSpace str = [] then some [] else fmUnmarshalPaths (splitComma (trimSpace str))
+
+/-! ## Struct / Value / ListValue against a JSON tree
+
+`PValue` is a `google.protobuf.Value` (`unset` = no member of the oneof is set), `PFields` the entries of a
+`Struct.fields` map **in the order `marshalMap` emits them** (`order.GenericKeyOrder`: ascending by key,
+bytewise = by code point for valid UTF-8), `PList` a `ListValue.values`.  `JValue` is a JSON document as
+the decoder's token stream delimits it; object members are in text order.  A number is the bit pattern of
+the `float64` that the literal denotes / that is printed (text ↔ float conversion belongs to C22); a literal
+beyond the `float64` range denotes ±Inf and is rejected, as `strconv.ParseFloat` reports a range error. -/
+
+mutual
+inductive PValue where
+  | unset
+  | null
+  | num (bits : Nat)
+  | str (s : Str)
+  | bool (b : Bool)
+  | struct (fs : PFields)
+  | list (vs : PList)
+inductive PFields where
+  | nil
+  | cons (k : Str) (v : PValue) (rest : PFields)
+inductive PList where
+  | nil
+  | cons (v : PValue) (rest : PList)
+end
+
+mutual
+inductive JValue where
+  | null
+  | bool (b : Bool)
+  | num (bits : Nat)
+  | str (s : Str)
+  | obj (ms : JMembers)
+  | arr (es : JElems)
+inductive JMembers where
+  | nil
+  | cons (k : Str) (v : JValue) (rest : JMembers)
+inductive JElems where
+  | nil
+  | cons (v : JValue) (rest : JElems)
+end
+
+/-- `math.IsNaN(v) || math.IsInf(v, 0)` on the IEEE-754 binary64 bit pattern: exponent field all ones -/
+def nonFinite (bits : Nat) : Bool := bits / 2 ^ 52 % 2 ^ 11 = 2047
+
+mutual
+/-- `marshalKnownValue` -/
+def marshalValue : PValue → Option JValue
+  | .unset => none                                            -- "none of the oneof fields is set"
+  | .null => some .null
+  | .num b => if nonFinite b then none else some (.num b)     -- "invalid %v value"
+  | .str s => some (.str s)
+  | .bool b => some (.bool b)
+  | .struct fs => (marshalFields fs).map .obj
+  | .list vs => (marshalList vs).map .arr
+/-- `marshalStruct` = `marshalMap` -/
+def marshalFields : PFields → Option JMembers
+  | .nil => some .nil
+  | .cons k v r => (marshalValue v).bind fun j => (marshalFields r).map (.cons k j)
+/-- `marshalListValue` = `marshalList` -/
+def marshalList : PList → Option JElems
+  | .nil => some .nil
+  | .cons v r => (marshalValue v).bind fun j => (marshalList r).map (.cons j)
+end
+
+/-- strict order of map keys: lexicographic by code point -/
+def strLt : Str → Str → Bool
+  | _, [] => false
+  | [], _ :: _ => true
+  | a :: s, b :: t => a.toNat < b.toNat || (a.toNat = b.toNat && strLt s t)
+
+/-- store an entry in the map: `none` if the key is already present ("duplicate map key") -/
+def insertField (k : Str) (v : PValue) : PFields → Option PFields
+  | .nil => some (.cons k v .nil)
+  | .cons k' v' r =>
+    if strLt k k' then some (.cons k v (.cons k' v' r))
+    else if k = k' then none
+    else (insertField k v r).map (.cons k' v')
+
+mutual
+/-- `unmarshalKnownValue` -/
+def unmarshalValue : JValue → Option PValue
+  | .null => some .null
+  | .bool b => some (.bool b)
+  | .num b => if nonFinite b then none else some (.num b)   -- `unmarshalFloat(tok, 64)` fails on overflow
+  | .str s => some (.str s)
+  | .obj ms => (unmarshalMembers ms).map .struct
+  | .arr es => (unmarshalElems es).map .list
+/-- `unmarshalStruct` = `unmarshalMap`.  The resulting Go map has no order; the entries are kept here in
+`marshalMap`'s order, so the order in which the members are stored does not matter and the recursion
+stores the first member last. -/
+def unmarshalMembers : JMembers → Option PFields
+  | .nil => some .nil
+  | .cons k j r => (unmarshalValue j).bind fun v => (unmarshalMembers r).bind fun fs => insertField k v fs
+/-- `unmarshalListValue` = `unmarshalList` -/
+def unmarshalElems : JElems → Option PList
+  | .nil => some .nil
+  | .cons j r => (unmarshalValue j).bind fun v => (unmarshalElems r).map (.cons v)
+end
+
+/-! ## Dispatch (`wellKnownTypeMarshaler` / `wellKnownTypeUnmarshaler`) -/
+
+inductive Wkt where
+  | any | timestamp | duration | wrapper | struct | listValue | value | fieldMask | empty
+deriving DecidableEq, Repr
+
+/-- the `switch name.Name()` of `wellKnownTypeMarshaler` -/
+def marshalerTable : List (String × Wkt) :=
+  [("Any", .any), ("Timestamp", .timestamp), ("Duration", .duration),
+   ("BoolValue", .wrapper), ("Int32Value", .wrapper), ("Int64Value", .wrapper), ("UInt32Value", .wrapper),
+   ("UInt64Value", .wrapper), ("FloatValue", .wrapper), ("DoubleValue", .wrapper), ("StringValue", .wrapper),
+   ("BytesValue", .wrapper), ("Struct", .struct), ("ListValue", .listValue), ("Value", .value),
+   ("FieldMask", .fieldMask)]
+
+/-- `wellKnownTypeUnmarshaler` has one more case: `Empty` -/
+def unmarshalerTable : List (String × Wkt) := marshalerTable ++ [("Empty", .empty)]
+
+/-- `name.Parent() == "google.protobuf"` then the table; `parent`/`short` are `FullName.Parent()`/`Name()` -/
+def wellKnownTypeMarshaler (parent short : String) : Option Wkt :=
+  if parent = "google.protobuf" then marshalerTable.lookup short else none
+
+def wellKnownTypeUnmarshaler (parent short : String) : Option Wkt :=
+  if parent = "google.protobuf" then unmarshalerTable.lookup short else none
+
 end WktJson
